@@ -33,7 +33,8 @@ func PropagateLookaheads(m *Model) error {
 		used.ClearAll(len(m.Params))
 		usedLA(m, nt.Value, func(param int, _ status.SourceNode) { used.Set(param) })
 		required := used.Slice(reuse)
-		state = append(state, nontermExt{pending: closure.Add(required), requiredFlags: required})
+		// Note: "required" lives in the shared scratch buffer, which later calls overwrite.
+		state = append(state, nontermExt{pending: closure.Add(required), requiredFlags: append([]int(nil), required...)})
 	}
 	for i, nt := range m.Nonterms {
 		state[i].compat = entryPoints(nt.Value, func(ref *Expr) {
